@@ -9,6 +9,7 @@ for d in ${@:-seeded/C*}; do
   n=$(basename $d)
   pf=$(python3 -c "import json;print(json.load(open('$d/meta.json'))['patch_file'])")
   ck=$(python3 -c "import json;print(json.load(open('$d/meta.json'))['check_result']['check'])")
+  if [ "$(python3 -c "import json;print(json.load(open('$d/meta.json'))['check_result'].get('missed',False))")" = "True" ]; then echo "$n: recorded as NOT caught (see its meta.json)"; continue; fi
   if ! git -C /repo apply $PWD/$d/$pf; then echo "$n: PATCH DOES NOT APPLY"; fail=1; continue; fi
   out=$(./check $ck quick 2>&1); rc=$?
   git -C /repo checkout -- . ; git -C /repo clean -fdq
